@@ -80,8 +80,14 @@ async def run_history(ctx, tree, kind, ops, n, rnd, stop='clean', crash_at=None,
         sq.env.update({'LD_PRELOAD': shim, 'VERIF_CRASH_DIR': os.path.join(sq.run, 'cd'), 'VERIF_CRASH_AT': str(crash_at if crash_at else -1), 'VERIF_CRASH_LOG': crashlog})
         if partial is not None:
             sq.env['VERIF_CRASH_PARTIAL'] = str(partial)
-    sq.start(wait=40)
-    wait_rebuilt(sq, 10.0)
+    early_kill = False
+    try:
+        sq.start(wait=40)
+        wait_rebuilt(sq, 10.0)
+    except squidctl.MachineryError:
+        if not (shim and crash_at):
+            raise
+        early_kill = True           # the fault point lies in squid's own start-up writes (swap.state, db header): killed before it listened
     base = 'http://127.0.0.1:%d/d%d/' % (origin.port, n)
     rid = [0]
     died = False
@@ -95,7 +101,7 @@ async def run_history(ctx, tree, kind, ops, n, rnd, stop='clean', crash_at=None,
             return None, vid
         return r, vid
     try:
-        for op, key in ops:
+        for op, key in (ops if not early_kill else []):
             if not sq.alive():
                 died = True
                 break
